@@ -38,7 +38,7 @@ def strategy_(draw, tier):
                 overwrite=draw(st.sampled_from([None, None, 0.0, 30.0, 2.5])),
                 sig=sg, opts=draw(S.opts_strategy()),
                 select=draw(st.sampled_from([None, None, 'slice', 'label', 'index', 'reversed'])),
-                sel_idx=draw(st.lists(st.integers(0, 5), min_size=1, max_size=5)),
+                sel_idx=draw(st.lists(st.integers(0, 5), min_size=1, max_size=5)), sel_form=draw(st.sampled_from(['list', 'tuple', 'ndarray'])),
                 sel_a=draw(st.integers(0, 5)), sel_b=draw(st.integers(1, 6)),
                 order=draw(st.sampled_from(['ABACAD', 'ABABAB', 'AAABBB'])),
                 repeat=draw(st.integers(1, 3)),
@@ -153,7 +153,9 @@ def run_case(case, ctx):
     elif sel == 'index':
         # an index-array subset in arbitrary order: the first member need not be the earliest
         ii = list(dict.fromkeys(i % nfr for i in case['sel_idx']))     # distinct members, arbitrary order
-        ok, target = core.call(obs, 'index_select', lambda: cad[ii])
+        form = case.get('sel_form', 'list')
+        sel_obj = {'list': list(ii), 'tuple': tuple(ii), 'ndarray': np.array(ii)}[form]
+        ok, target = core.call(obs, f'index_select[{form}]', lambda: cad[sel_obj])
         members = [frames[i] for i in ii]
         obs.cls('select=index')
     elif sel == 'reversed':
